@@ -29,16 +29,27 @@ type Sub struct {
 	Nexts int    `json:"nexts"` // number of next messages in the script
 	Term  string `json:"term"`  // "complete" | "error" | "none"
 	// burst parts only: cancel point
+	// On scripts what the subscriber's handler does, synchronously, when it receives its message number At
+	// (0-based, any type): cancel its own subscription, cancel subscription Other, or block until a "release"
+	// step (the documented contract only says that a slow handler delays delivery on its connection).
+	On       *OnMsg `json:"on,omitempty"`
 	Deadline bool   `json:"deadline,omitempty"` // burst: the cancel point is the expiry of the subscriber's own deadline (ctx.Err() == DeadlineExceeded) instead of a cancel
 	Cancel   string `json:"cancel,omitempty"`   // "" never | "pre" ctx already cancelled | "race" right after launch | "init" after upstream saw the init (+settle) | "mid" after CancelAt messages
 	At       int    `json:"at,omitempty"`
+}
+
+// OnMsg is a scripted handler behaviour.
+type OnMsg struct {
+	At    int    `json:"at"`
+	Act   string `json:"act"` // cancel-self | cancel-other | block
+	Other int    `json:"other,omitempty"`
 }
 
 // Step is one scheduled action of a stepped case. After every step the harness waits for the
 // step's observable effect (at the upstream or at a handler), never for wall-clock time, except
 // for the one-sided settle interval when a subscriber is expected to join a dial in progress.
 type Step struct {
-	Op  string `json:"op"`            // sub | cancel | expire (the subscriber's own context deadline passes) | send | ack | drop | idle | silence | ticks (Key = number of ping intervals to let pass)
+	Op  string `json:"op"`            // sub | cancel | expire (the subscriber's own context deadline passes) | release (a blocked handler continues) | abandon (Key: tuple; cancel whoever is dialling it right now, never Sub) | send | ack | drop | idle | silence | ticks (Key = number of ping intervals to let pass)
 	Sub int    `json:"sub,omitempty"` // sub, cancel, send
 	Key int    `json:"key,omitempty"` // ack, drop: tuple index
 }
